@@ -88,6 +88,23 @@ def main():
         with open(args.replay, encoding='utf8') as f:
             payload = json.load(f)
         still = mod.replay(ctx, payload)
+        if still is None:
+            # generic replay: regenerate the run the file came from (same seed and tier; every random choice of a stream
+            # derives from that one PRNG) and look for the recorded input / signature among what it reports now
+            rctx = Ctx(prop, payload.get('tier', args.tier), int(payload.get('seed', seed)))
+            rctx.driver, rctx.proof_ok = ctx.driver, ctx.proof_ok
+            res = mod.run(rctx)
+            if payload.get('kind') == 'unproved':
+                if res.get('disagreements') or broken:
+                    still = {'no_longer_checks': broken, 'first_disagreements': res.get('disagreements', [])[:3]}
+                elif res.get('violations'):
+                    still = res['violations'][0]
+            else:
+                same = [v for v in res.get('violations', []) if v.get('input') == payload.get('input')]
+                if not same:
+                    same = [v for v in res.get('violations', []) if v.get('signature') == payload.get('signature')]
+                if same:
+                    still = same[0]
         if still:
             print(f'VIOLATION property={prop} replay={args.replay}')
             print(json.dumps(still, default=str)[:2000])
